@@ -42,6 +42,9 @@ Envelope(e) ==
   \* judged on the operator's ops alone (cause / wantServe are history of the ops, not inferred state)
   ELSE IF \E m \in M : st[m] # "none" /\ m \notin al /\ cause[m] = "none" THEN "MasterDiedUnasked"
   ELSE IF (\E m \in al : wantServe[m]) /\ ~(\E m \in al : wantServe[m] /\ m \in ToSet(e.serving)) THEN "NotServingAfterRestore"
+  \* "the old one keeps serving": every running master that is meant to serve has a live worker (e.staffed: masters
+  \* seen with a booted, live worker within 1.5 s of the checkpoint - workers may be recycled meanwhile)
+  ELSE IF \E m \in al : wantServe[m] /\ m \notin ToSet(e.staffed) THEN "MasterLeftWithoutWorkers"
   ELSE "ok"
 
 Matches(e) ==
